@@ -13,11 +13,12 @@ cleanup() { git -C /repo worktree remove --force "$wt" 2>/dev/null; rm -rf "$wt"
 trap cleanup EXIT
 cd "$wt" || exit 2
 # demos written by the producers refer to their own worktree path; run them against the private one
-sed "s#$src#$wt#g" "$P/demo.py" > "$wt/_demo.py"
-echo "--- demo on clean tree"; PYTHONPATH=$wt timeout 600 /venv/bin/python _demo.py >/tmp/vs_clean.$$.log 2>&1; c=$?; tail -2 /tmp/vs_clean.$$.log; echo "clean demo exit=$c"
+mkdir -p "$wt/seed_out/$sd"; cp -r "$P/." "$wt/seed_out/$sd/"
+sed "s#$src#$wt#g" "$P/demo.py" > "$wt/seed_out/$sd/demo.py"
+echo "--- demo on clean tree"; PYTHONPATH=$wt timeout 600 /venv/bin/python seed_out/$sd/demo.py >/tmp/vs_clean.$$.log 2>&1; c=$?; tail -2 /tmp/vs_clean.$$.log; echo "clean demo exit=$c"
 git apply "$P/patch.diff" || { echo "PATCH DOES NOT APPLY in worktree"; exit 2; }
 echo "--- suite with the change"; PYTHONPATH=$wt /venv/bin/python -m pytest -q -p no:cacheprovider tests 2>&1 | tail -1
-echo "--- demo with the change"; PYTHONPATH=$wt timeout 600 /venv/bin/python _demo.py >/tmp/vs_patched.$$.log 2>&1; d=$?; tail -3 /tmp/vs_patched.$$.log; echo "patched demo exit=$d"
+echo "--- demo with the change"; PYTHONPATH=$wt timeout 600 /venv/bin/python seed_out/$sd/demo.py >/tmp/vs_patched.$$.log 2>&1; d=$?; tail -3 /tmp/vs_patched.$$.log; echo "patched demo exit=$d"
 rm -f /tmp/vs_clean.$$.log /tmp/vs_patched.$$.log
 echo "--- checks against /repo with the patch applied"
 if git -C /repo apply --check "$P/patch.diff" 2>/dev/null; then
